@@ -27,7 +27,7 @@ ASSUMPTIONS = [
     'objects other than Memory (requests, packets) do not mutate Memory._write_requests/_read_requests',
     'user progress callbacks and link drivers raising inside the lock are outside the property\'s quantifier',
 ]
-FLOORS = {'R1': 4, 'R2': 6, 'R3': 6, 'R4': 12, 'R5': 5, 'R6': 4, 'R7': 2, 'R8': 1, 'R9': 4, 'R10': 15}
+FLOORS = {'R1': 4, 'R2': 6, 'R3': 6, 'R4': 12, 'R5': 6, 'R6': 4, 'R7': 2, 'R8': 1, 'R9': 4, 'R10': 15}
 
 
 def _const(func, node):
@@ -294,6 +294,9 @@ def check(ctx):
     bad_ret = [n for n in grf.nodes if n.kind == 'return' and fold_in(rf_, n.ast.value) is not False and not (regn and grf.dominates(regn[0], n))]
     ctx.inst('R4', rf_, 'read-accepted-iff-registered', not bad_ret, 'read() reports success at line %s without registering the request' % [n.line for n in bad_ret])
 
+    dflt = mem.method('write').defaults()
+    ctx.inst('R5', mem.method('write'), 'queue-kept-by-default', 'flush_queue' in dflt and fold_in(mem.method('write'), dflt['flush_queue']) is False,
+             'a plain write() keeps the writes already queued for the memory (flush_queue defaults to False): superseding them must be asked for explicitly')
     # ---------------- R5: FIFO -------------------------------------------------
     ins, rem, starts = [], [], []
     for f in mem.methods.values():
